@@ -3,7 +3,8 @@ CONSTANTS
   Types = {"A", "B"}
   MaxUses = 1
   RawToo = TRUE
-  SeedIds = {0, 1, 2, 3, 4}
+  SeedIds = {0, 1, 3}
+  Subjects = {1}
 SPECIFICATION Spec
 INVARIANT Emit
 CONSTRAINT Small
